@@ -391,6 +391,64 @@ func wrapperScenario(c cfg) *mc.Scenario {
 	return &mc.Scenario{Name: name, Body: body, Check: check, Model: sched.Preemption}
 }
 
+// wrapperCloseScenario: the caller closes its pooled connection while a stream it opened through it
+// is still running (Close only stops new calls). The underlying connection belongs to that stream
+// until the stream ends: nobody else may be given it, and the pool must not close it.
+func wrapperCloseScenario(c cfg) *mc.Scenario {
+	name := fmt.Sprintf("pool-wrapper-close-with-open-stream[%s]", c)
+	body := func() {
+		ps := &poolState{}
+		sched.Cur().State()["ps"] = ps
+		opts := drpcpool.Options{Capacity: c.capacity, KeyCapacity: c.keyCap}
+		if c.expire {
+			opts.Expiration = time.Minute
+		}
+		pool := drpcpool.New[string, *fakeConn](opts)
+		dial := func(ctx context.Context, key string) (*fakeConn, error) {
+			fc := &fakeConn{ps: ps, id: len(ps.conns), key: key, closedCh: make(chan struct{})}
+			ps.conns = append(ps.conns, fc)
+			return fc, nil
+		}
+		connA := pool.Get(context.Background(), "k1", dial)
+		st, err := connA.NewStream(context.Background(), "/s", nil)
+		if err != nil {
+			ps.failf("NewStream through the pool failed: %v", err)
+			return
+		}
+		vs.Go("closerA", func() { _ = connA.Close() })
+		vs.Go("userB", func() {
+			connB := pool.Get(context.Background(), "k1", dial)
+			_ = connB.Invoke(context.Background(), "/x", nil, nil, nil)
+			_ = connB.Close()
+		})
+		sched.QuiesceAll()
+		if ps.conns[0].closes != 0 {
+			ps.failf("the pool closed connection 0 while the stream opened through it is still running")
+		}
+		_ = st.Close()
+		sched.QuiesceAll()
+		_ = pool.Close()
+		sched.QuiesceAll()
+		for _, fc := range ps.conns {
+			if fc.closes != 1 {
+				ps.failf("connection %d closed %d times after Pool.Close (want exactly once)", fc.id, fc.closes)
+			}
+		}
+		sched.Observef("dialled=%d", len(ps.conns))
+	}
+	check := func(e *sched.Exec) string {
+		if len(e.Panics) > 0 {
+			return "panic: " + e.Panics[0]
+		}
+		ps := e.State()["ps"].(*poolState)
+		if len(ps.fails) > 0 {
+			return ps.fails[0]
+		}
+		return ""
+	}
+	return &mc.Scenario{Name: name, Body: body, Check: check, Model: sched.Preemption}
+}
+
 func plans(tier string) []mc.Plan {
 	var ps []mc.Plan
 	for _, capacity := range []int{1, 2, 0} {
@@ -418,6 +476,7 @@ func plans(tier string) []mc.Plan {
 					}
 					ps = append(ps, mc.Plan{Scen: seqScenario(c, 2, true), Bounds: b2[:len(b2)-1], Split: true})
 					ps = append(ps, mc.Plan{Scen: wrapperScenario(c), Bounds: b2[:len(b2)-1], Split: true})
+					ps = append(ps, mc.Plan{Scen: wrapperCloseScenario(c), Bounds: []int{0, 1, 2}})
 				}
 			}
 		}
